@@ -1330,11 +1330,10 @@ impl LpgStore {
                 let old_hv = HashableValue::new(old_value);
                 if let Some(mut nodes) = index.get_mut(&old_hv) {
                     nodes.remove(&node_id);
-                    if nodes.is_empty() {
-                        drop(nodes);
-                        index.remove(&old_hv);
-                    }
                 }
+                // Drop the bucket only if it is (still) empty under the shard
+                // lock: another writer may have refilled it in the meantime
+                index.remove_if(&old_hv, |_, nodes| nodes.is_empty());
             }
 
             // Add new value to index
@@ -1355,11 +1354,10 @@ impl LpgStore {
                 let old_hv = HashableValue::new(old_value);
                 if let Some(mut nodes) = index.get_mut(&old_hv) {
                     nodes.remove(&node_id);
-                    if nodes.is_empty() {
-                        drop(nodes);
-                        index.remove(&old_hv);
-                    }
                 }
+                // Drop the bucket only if it is (still) empty under the shard
+                // lock: another writer may have refilled it in the meantime
+                index.remove_if(&old_hv, |_, nodes| nodes.is_empty());
             }
         }
     }
